@@ -95,6 +95,15 @@ Definition dry_final_of_rows (q : dquirks) (k : nat) (patterns paths : list stri
 Definition model_kwarg_filter : list string -> list (nat * nat) -> nat -> nat -> bool :=
   kwarg_filter_gen dry_kwarg_cmp dry_kwarg_num dry_kwarg_den dry_call_contains.
 
+(* the three text-only filters and the registry with the literals of block_filter.py / file_analyzer.py / config.py *)
+Definition model_import_filter := import_filter_gen dry_import_line_rejected.
+Definition model_logger_line := logger_line_gen dry_logger_self dry_logger_objs dry_logger_meths.
+Definition model_logger_filter := logger_filter_gen dry_logger_single model_logger_line.
+Definition model_reraise_filter := reraise_filter_gen dry_reraise_len_bad dry_is_except_raise.
+Definition model_registry (configured : bool) (custom : list (string * bool)) (calls : list (nat * nat)) : list string -> nat -> nat -> bool :=
+  registry_gen dry_registry (if configured then filter_on dry_filter_defaults custom else fun _ => true)
+               (fun raw => model_kwarg_filter raw calls) model_import_filter model_logger_filter model_reraise_filter.
+
 (* ------------------------------------------------------------------ messages *)
 Definition ref_text (paths : list string) (r : nat * nat * nat) : string :=
   let '(f, s, e) := r in render_ref dry_ref_format (nth f paths "?") s e.
